@@ -6,6 +6,9 @@ CHECKERS = dict(C07_rt.CHECKERS)
 
 
 def run(ctx):
+    from contracts import wrap_vc
+
+    api.run_vcs(ctx, wrap_vc.wrapper_vcs("C07.P.module_forwards_parameters", ['CTCGreedySearch']), {"C07.P.module_forwards_parameters": wrap_vc.TEXT % "CTCGreedySearch"})
     from vf.pyvc import crosscheck_sym
 
     crosscheck_sym.guard(ctx)  # the symbolic-shape tensor layer against real torch, before the clauses that rest on it
